@@ -627,8 +627,12 @@ class StateEngine(object):
             )
 
         state_machine_type = state_machine.get("type")
+        execution_detail = None
         if state_machine_type == "STANDARD":
-            execution_detail = self.executions[execution_arn]
+            # May be missing if the StateEngine has been restarted and no
+            # history update has recreated it yet (e.g. a failed retried Task).
+            execution_detail = self.executions.get(execution_arn)
+        if execution_detail:
             state_machine_arn = execution_detail["stateMachineArn"]
         else:
             """
@@ -1460,7 +1464,7 @@ class StateEngine(object):
             if error_type == "States.TaskFailed":
                 boiler_plate = ""
             elif state_machine_type == "STANDARD":
-                id = len(self.execution_history[execution_arn])
+                id = len(self.execution_history.get(execution_arn, []))
                 boiler_plate = (
                     "An error occurred while executing the state "
                     "\"{}\" (entered at the event id #{}). "
